@@ -1322,16 +1322,23 @@ func (s *Set) IsSubset(other Iterator) (bool, error) {
 }
 
 func (s *Set) Intersection(other Iterator) (Value, error) {
-	intersect := new(Set)
+	// Collect the elements of other, then select the common
+	// elements in the order of s, the left operand (see spec).
+	var others Set
 	var x Value
 	for other.Next(&x) {
-		found, err := s.Has(x)
+		if err := others.Insert(x); err != nil {
+			return nil, err
+		}
+	}
+	intersect := new(Set)
+	for e := s.ht.head; e != nil; e = e.next {
+		found, err := others.Has(e.key)
 		if err != nil {
 			return nil, err
 		}
 		if found {
-			err = intersect.Insert(x)
-			if err != nil {
+			if err := intersect.Insert(e.key); err != nil {
 				return nil, err
 			}
 		}
